@@ -179,13 +179,28 @@ def eigvalsh(M, UPLO="L"):
 
 
 def eig(M):
+    """contract of numpy.linalg.eig (general eigen-solver) on the registered Hermitian matrix: the eigenvalues, and unit-norm
+    eigenvectors that are linearly independent -- but, unlike eigh, NOT necessarily orthogonal inside a degenerate eigenspace.
+    The stub therefore answers with an allowed non-orthogonal basis whenever two neighbouring eigenvalues coincide:
+    column i+1 := (v_i + v_{i+1})/sqrt(2) if w_i == w_{i+1} else v_{i+1}."""
     if nd.is_concrete(M):
         return np.linalg.eig(nd.to_concrete(M))
     hit = _lookup(M)
     if hit is None:
         raise core.StubMiss("eig called on a symbolic matrix that is not a registered spectral parametrisation")
     w, V = hit
-    return SymNd(list(w)), V.copy()
+    d = len(w)
+    Vo = np.asarray(V, dtype=complex).astype(object)
+    out = Vo.copy()
+    r2 = 1.0 / np.sqrt(2.0)
+    for i in range(d - 1):
+        tie = core.SBool.of(Sym.of(w[i]) == w[i + 1])
+        if tie.k == "const" and not tie.a:
+            continue
+        for r in range(d):
+            mixed = (Vo[r, i] + Vo[r, i + 1]) * r2
+            out[r, i + 1] = core.ite(tie, Sym.of(mixed), Sym.of(Vo[r, i + 1]))
+    return SymNd(list(w)), out.view(SymNd)
 
 
 def eigvals(M):
